@@ -245,6 +245,7 @@ func checkC07(c *Check, p *Program) {
 
 	dts := dptTypes(c, p, "C07.types")
 	c.Floor("C07.types", "registered datapoint types", len(dts), 174)
+	checkDecodeStores(c, p, dts, "C07.keeps")
 	memo := map[*ssa.Function]lenGuard{}
 
 	for _, dt := range dts {
@@ -460,6 +461,41 @@ func checkC07(c *Check, p *Program) {
 		rel, _ := new(big.Rat).Quo(kp, want).Float64()
 		c.Decide(math.Abs(rel-1) < 1.0/(1<<20), "C07.scale", name+" scale equals the format's", pos, fmt.Sprintf("%s (float32 rendering of %s)", kp.RatString(), want.RatString()), fmt.Sprintf("encoder scale is %s, the datapoint format prescribes %s", kp.RatString(), want.RatString()))
 	}
+	// two-octet floats: a saturation branch encodes its own bound.  The branch `d <= T: encode K` maps every
+	// value up to T to K; beyond one step of the format at K that is no longer rounding but a wrong value.
+	nSat := 0
+	for _, dt := range dts {
+		if dt.Main != 9 || len(dt.Pack.Params) == 0 {
+			continue
+		}
+		instrsOf(dt.Pack, func(in ssa.Instruction) {
+			call, ok := in.(*ssa.Call)
+			if !ok || call.Common().StaticCallee() == nil || call.Common().StaticCallee().Name() != "packF16" || len(call.Common().Args) != 1 {
+				return
+			}
+			k, isK := constFloat(call.Common().Args[0])
+			if !isK {
+				return
+			}
+			// step of the format at K: 0.01 * 2^e with the smallest e whose mantissa range holds |K| * 100
+			step := 0.01
+			for m := math.Abs(k) * 100; m > 2047; m /= 2 {
+				step *= 2
+			}
+			for _, iv := range edgeIntervals(dt.Pack.Params[0], call.Block()) {
+				nSat++
+				far := 0.0
+				if !math.IsInf(iv.hi, 1) && iv.hi-k > far {
+					far = iv.hi - k
+				}
+				if !math.IsInf(iv.lo, -1) && k-iv.lo > far {
+					far = k - iv.lo
+				}
+				c.Decide(far <= step*(1+1e-6), "C07.saturate", fmt.Sprintf("%s saturation to %g covers only values beyond it", dptName(dt), k), p.InstrPos(call), fmt.Sprintf("branch range %s, constant %g, step %g", fivString(iv), k, step), fmt.Sprintf("the branch that encodes the constant %g is taken for values in %s: values up to %g away from it are encoded as %g, the format's step there is %g", k, fivString(iv), far, k, step))
+			}
+		})
+	}
+	c.Floor("C07.saturate", "saturation branches of two-octet floats", nSat, 30)
 	checkF16(c, p)
 }
 
@@ -669,6 +705,14 @@ func checkF16(c *Check, p *Program) {
 			continue
 		}
 		c.Decide(lo >= -2048 && hi <= 2047, "C07.f16", key+" mantissa normalised to 12 bits", ppos, fmt.Sprintf("after the loop the mantissa lies in [%d, %d]", lo, hi), fmt.Sprintf("after the loop the mantissa lies in [%d, %d], not inside [-2048, 2047]: it does not fit sign + 11 bits", lo, hi))
+		// ... and is only halved when it does not fit: a mantissa that fits but is halved all the same comes back
+		// one step lower (2047 -> 1023 * 2), i.e. a value read from the bus drifts when written back; -2048 and
+		// -1024 * 2 are the same value, so the lower end may stop at -2047
+		if side == "negative mantissa" {
+			c.Decide(lo <= -2047, "C07.f16", key+" keeps every mantissa that fits", ppos, fmt.Sprintf("smallest mantissa left alone: %d", lo), fmt.Sprintf("mantissas below %d are halved although they fit 11 bits plus sign: the value loses its last digit", lo))
+		} else {
+			c.Decide(hi == 2047, "C07.f16", key+" keeps every mantissa that fits", ppos, "largest mantissa left alone: 2047", fmt.Sprintf("mantissas above %d are halved although they fit 11 bits: %d comes back as %d", hi, hi+1, (hi+1)/2*2))
+		}
 		sl, isSl := pp.ret.(avSlice)
 		bs, okB := []BV(nil), false
 		if isSl {
@@ -752,6 +796,18 @@ func (e *BitEval) evalOpaquePhis(v ssa.Value) BV {
 // ---------------------------------------------------------------------------
 // C06
 
+// arithmeticCodec: the registered types whose codec computes with scaled
+// floats, calendar arithmetic or character loops (confirmed by reading each);
+// every other type outside main number 9 has an exact wire format and must be
+// followed bit by bit.
+var arithmeticCodec = map[string]bool{
+	"5.001": true, "5.003": true, // scaling 0..255 <-> 0..100 %, 0..360 degrees
+	"8.003": true, "8.004": true, "8.010": true, // scaled two-octet signed (x0.01, x0.1)
+	"11.001": true,              // date: year window 1990..2089
+	"16.000": true, "16.001": true, // 14 characters, loops
+	"28.001": true, // variable-length string
+}
+
 func checkC06(c *Check, p *Program) {
 	c.Technique = "abstract interpretation of Unpack followed by Pack on the decoded abstract value (bit provenance through both codecs, per path, with the source bits pinned by the branches taken), interval inclusion between the decoder's accepted range and the encoder's clamp, sibling comparison of replacement predicates"
 	c.Explanation = "Decided: (1) re-encoding is shaped to be accepted again - the encoder's payload length equals the decoder's length guard, and for every type that clamps, the interval the decoder accepts is contained in the interval the encoder leaves unchanged (otherwise an accepted value is altered on write-back); (2) for every type whose Unpack and Pack stay inside the bit-provenance domain (shifts, masks, disjoint or, width changes, big-endian and IEEE bit intrinsics, boolean bits), the composition Pack(Unpack(data)) is computed abstractly per path and every output bit is exactly the same bit of the input, or a constant 0 at a position the decoder does not read - byte identity up to ignored reserved bits; the evidence lists each type as 'identity proved' or 'outside the domain' (two-octet floats, scaled types, dates, strings); (3) the documented replacements (17.001, 18.001: out-of-range scene numbers become 63) use the same predicate in both directions. Not decided: drift of the two-octet float, of the scaled types 5.001/5.003/8.003/8.004/8.010, of 11.001 and of the string types - float rounding and arithmetic over a data domain; a 'must round' lint is not a necessary condition and is not armed."
@@ -761,6 +817,7 @@ func checkC06(c *Check, p *Program) {
 	dts := dptTypes(c, p, "C06.types")
 	c.Floor("C06.types", "registered datapoint types", len(dts), 174)
 	checkStringCharsets(c, p, dts)
+	checkDecodeStores(c, p, dts, "C06.keeps")
 	memo := map[*ssa.Function]lenGuard{}
 	proved, outside := []string{}, []string{}
 	for _, dt := range dts {
@@ -784,8 +841,10 @@ func checkC06(c *Check, p *Program) {
 		case ok:
 			proved = append(proved, dt.Key)
 			c.OK("C06.identity", name+" Pack(Unpack(data)) is the bit identity", pos, fmt.Sprintf("%d decode/encode path pair(s); every output bit is the same input bit, or 0 where the decoder does not look", nPaths))
-		case strings.HasPrefix(why, "DOMAIN:"):
+		case strings.HasPrefix(why, "DOMAIN:") && (dt.Main == 9 || arithmeticCodec[dt.Key]):
 			outside = append(outside, dt.Key+" ("+strings.TrimPrefix(why, "DOMAIN:")+")")
+		case strings.HasPrefix(why, "DOMAIN:"):
+			c.Fail("C06.identity", name+" Pack(Unpack(data)) is the bit identity", pos, "the type has an exact wire format (integer, bit field, enumeration, character, IEEE-754) but its codec pair cannot be followed bit by bit: "+strings.TrimPrefix(why, "DOMAIN:"))
 		default:
 			c.Fail("C06.identity", name+" Pack(Unpack(data)) is the bit identity", pos, why)
 		}
